@@ -28,6 +28,8 @@ pub enum Op {
     Tick,
     /// put an in-use session back
     Return(usize),
+    /// a reaper pass and k gets at the same time
+    TickWithGets(usize),
 }
 
 #[derive(Clone, Debug)]
@@ -75,7 +77,7 @@ async fn run_async(c: PoolCase) -> (Vec<(String, String)>, BTreeMap<&'static str
     }
 
     // after any step in which the reaper may have run: apply the property's rules
-    async fn after_reaper(known: &mut [Known], before_open_idle: &[usize], before_times: &[(usize, Instant)], c: &PoolCase, problems: &mut Vec<(String, String)>, what: &str) -> u64 {
+    async fn after_reaper(known: &mut [Known], before_open_idle: &[usize], before_times: &[(usize, Instant)], c: &PoolCase, problems: &mut Vec<(String, String)>, what: &str, taken: usize) -> u64 {
         let now = Instant::now();
         let timeout = Duration::from_secs(c.idle_timeout_s);
         // R5: in-use sessions are never touched
@@ -98,7 +100,8 @@ async fn run_async(c: PoolCase) -> (Vec<(String, String)>, BTreeMap<&'static str
             }
         }
         // R2: never fewer than min(min_idle, before) open idle sessions
-        let after = idle_open(known).len();
+        // sessions that concurrent gets took out after the pass had left them count as "left by the reaper"
+        let after = idle_open(known).len() + taken;
         let floor = c.min_idle.min(before_open_idle.len());
         if after < floor {
             problems.push(("fewer_than_min_idle_left".into(), format!("{what}: {} open idle sessions before, min_idle {}, only {after} left (closed: {:?})", before_open_idle.len(), c.min_idle, closed_now)));
@@ -188,9 +191,52 @@ async fn run_async(c: PoolCase) -> (Vec<(String, String)>, BTreeMap<&'static str
                 let before = idle_open(&known);
                 let times: Vec<(usize, Instant)> = known.iter().enumerate().filter_map(|(i, k)| k.idle_since.filter(|_| !k.session.is_closed()).map(|t| (i, t))).collect();
                 tokio::time::sleep(Duration::from_secs(*s)).await;
-                let n = after_reaper(&mut known, &before, &times, &c, &mut problems, &what).await;
+                let n = after_reaper(&mut known, &before, &times, &c, &mut problems, &what, 0).await;
                 *seen.entry("reaper_closes_observed").or_insert(0) += n;
                 *seen.entry("clock_advances").or_insert(0) += 1;
+            }
+            Op::TickWithGets(k) => {
+                let before = idle_open(&known);
+                let times: Vec<(usize, Instant)> = known.iter().enumerate().filter_map(|(i, kn)| kn.idle_since.filter(|_| !kn.session.is_closed()).map(|t| (i, t))).collect();
+                let p0 = pool.clone();
+                let reaper = tokio::spawn(async move { p0.cleanup_expired().await });
+                let mut handles = Vec::new();
+                for _ in 0..*k {
+                    let p = pool.clone();
+                    handles.push(tokio::spawn(async move { p.get_idle_session().await }));
+                }
+                let _ = tokio::time::timeout(Duration::from_secs(60), reaper).await;
+                let mut got: Vec<Arc<Session>> = Vec::new();
+                for h in handles {
+                    if let Ok(Ok(Some(s))) = tokio::time::timeout(Duration::from_secs(60), h).await {
+                        got.push(s);
+                    }
+                }
+                *seen.entry("gets").or_insert(0) += *k as u64;
+                *seen.entry("gets_racing_a_reaper_pass").or_insert(0) += *k as u64;
+                *seen.entry("sessions_handed_out").or_insert(0) += got.len() as u64;
+                for (a, s) in got.iter().enumerate() {
+                    if got.iter().skip(a + 1).any(|o| Arc::ptr_eq(o, s)) {
+                        problems.push(("same_session_returned_twice".into(), format!("{what}: two gets that overlapped a reaper pass received session id {}", s.id())));
+                    }
+                    if let Some(kn) = known.iter_mut().find(|kn| Arc::ptr_eq(&kn.session, s)) {
+                        if kn.idle_since.is_none() {
+                            problems.push(("non_idle_session_returned".into(), format!("{what}: session id {} was not in the idle set", s.id())));
+                        }
+                        kn.idle_since = None;
+                        kn.in_use = true;
+                    }
+                }
+                // a session handed out in this step may have been closed by the concurrent pass only if the pass took it
+                // first; then the get must not have returned it
+                for s in &got {
+                    if s.is_closed() {
+                        problems.push(("closed_session_returned".into(), format!("{what}: a get racing the reaper returned session id {} which the reaper closed", s.id())));
+                    }
+                }
+                let taken = got.len();
+                let n = after_reaper(&mut known, &before, &times, &c, &mut problems, &what, taken).await;
+                *seen.entry("reaper_closes_observed").or_insert(0) += n;
             }
             Op::Tick => {
                 let before = idle_open(&known);
@@ -198,7 +244,7 @@ async fn run_async(c: PoolCase) -> (Vec<(String, String)>, BTreeMap<&'static str
                 if tokio::time::timeout(Duration::from_secs(60), pool.cleanup_expired()).await.is_err() {
                     problems.push(("reaper_blocked".into(), format!("{what}: cleanup_expired did not return within 60 virtual seconds")));
                 }
-                let n = after_reaper(&mut known, &before, &times, &c, &mut problems, &what).await;
+                let n = after_reaper(&mut known, &before, &times, &c, &mut problems, &what, 0).await;
                 *seen.entry("reaper_closes_observed").or_insert(0) += n;
                 *seen.entry("manual_ticks").or_insert(0) += 1;
             }
@@ -215,7 +261,7 @@ async fn run_async(c: PoolCase) -> (Vec<(String, String)>, BTreeMap<&'static str
         let before = idle_open(&known);
         let times: Vec<(usize, Instant)> = known.iter().enumerate().filter_map(|(i, k)| k.idle_since.filter(|_| !k.session.is_closed()).map(|t| (i, t))).collect();
         tokio::time::sleep(timeout + interval + Duration::from_secs(1)).await;
-        let n = after_reaper(&mut known, &before, &times, &c, &mut problems, "final quiet period").await;
+        let n = after_reaper(&mut known, &before, &times, &c, &mut problems, "final quiet period", 0).await;
         *seen.entry("reaper_closes_observed").or_insert(0) += n;
         let left = idle_open(&known).len();
         if left > c.min_idle && !before.is_empty() {
@@ -242,6 +288,7 @@ fn gen_case(rng: &mut Rng) -> PoolCase {
             7 => Op::Die(rng.usize(0, 8)),
             8..=9 => Op::Advance(*rng.pick(&[1u64, 1, 2, 3, 6])),
             10 => Op::Return(rng.usize(0, 4)),
+            11 if rng.chance(0.5) => Op::TickWithGets(rng.usize(1, 4)),
             _ => Op::Tick,
         });
     }
@@ -286,7 +333,11 @@ pub fn run_pool_level(ctx: Ctx) -> Report {
             }
             run::case_begin(&format!("C12 pool case {i}"));
             let c2 = c.clone();
+            // forced yields inside Session::close() (scheduling points) make a reaper pass span several polls while
+            // it holds the pool lock, so that concurrent gets really overlap it
+            let guard = crate::sched::install(if i % 2 == 0 { crate::sched::SchedMode::Random { p: 0.5, max: 3 } } else { crate::sched::SchedMode::Observe }, i as u64);
             let r = run::vt_block_on_deadline(Duration::from_secs(1_000_000), async move { run_async(c2).await });
+            drop(guard);
             rep.case(Some(hash_str(&c.describe().to_string())));
             match r {
                 None => rep.violate("pool", "any", "case_stuck", "pool case did not finish", c.describe()),
@@ -321,9 +372,9 @@ pub fn run_pool_level(ctx: Ctx) -> Report {
 pub fn meta() -> CheckMeta {
     CheckMeta {
         level: "exploration",
-        rule: "pool level: all operation sequences of length <= 4 over {add, get, external death, advance 2 s, tick, return} x 4 configurations (exhaustive-short) plus random sequences of 2-24 operations over {add, get, k concurrent gets, external death, clock advance, manual tick, return-to-pool} with check_interval in {1,2,5} s and idle_timeout / min_idle in {0,1,2,5}, on a real SessionPool holding real client Sessions (MemPipes) under virtual time; after every step the property's rules are applied: get never returns a closed / non-idle / duplicate session and never comes back empty while an open idle session exists; a reaper pass (periodic task or manual) never closes an in-use session, never closes an idle session younger than the timeout, never leaves fewer than min(min_idle, before) open idle sessions; after a quiet idle_timeout + check_interval no surplus expired session is still open. Client level (real Client + Server over loopback TLS, 150-400 ms intervals): sessions carrying a live stream must never appear in a PoolReap event. distinct_nontrivial = distinct (configuration, operation sequence).".into(),
+        rule: "pool level: all operation sequences of length <= 4 over {add, get, external death, advance 2 s, tick, return} x 4 configurations (exhaustive-short) plus random sequences of 2-24 operations over {add, get, k concurrent gets, k gets racing a reaper pass, external death, clock advance, manual tick, return-to-pool}, half of them with random forced yields at the scheduling points inside Session::close() (so that a reaper pass spans several polls while it holds the pool lock), with check_interval in {1,2,5} s and idle_timeout / min_idle in {0,1,2,5}, on a real SessionPool holding real client Sessions (MemPipes) under virtual time; after every step the property's rules are applied: get never returns a closed / non-idle / duplicate session and never comes back empty while an open idle session exists; a reaper pass (periodic task or manual) never closes an in-use session, never closes an idle session younger than the timeout, never leaves fewer than min(min_idle, before) open idle sessions; after a quiet idle_timeout + check_interval no surplus expired session is still open. Client level (real Client + Server over loopback TLS, 150-400 ms intervals): sessions carrying a live stream must never appear in a PoolReap event. distinct_nontrivial = distinct (configuration, operation sequence).".into(),
         assumptions: vec!["'eventually' is decided as: within idle_timeout + check_interval + 1 s of virtual quiet time".into(), "client-level verdicts are logical (PoolReap events joined with the harness' table of live streams), not timing based".into()],
-        floors: vec![("client_level_configurations", 3), ("live_streams_watched", 5), ("gets", 500), ("sessions_handed_out", 200), ("reaper_closes_observed", 100), ("manual_ticks", 100), ("quiet_periods", 500)],
+        floors: vec![("client_level_configurations", 3), ("live_streams_watched", 5), ("gets", 500), ("gets_racing_a_reaper_pass", 200), ("sessions_handed_out", 200), ("reaper_closes_observed", 100), ("manual_ticks", 100), ("quiet_periods", 500)],
         exhaustive: false,
     }
 }
